@@ -29,8 +29,8 @@ func (Prop) Assumptions() []string {
 }
 
 func (Prop) Plan(tier string) []lib.Workload {
-	sc, race, mq, mqr := 304, 32, 160, 16
-	rb, mb := 8, 4 // the race binary is slow to start: fewer, longer batches
+	sc, race, mq, mqr := 304, 32, 96, 8
+	rb, mb := 4, 2 // the race binary is slow to start: fewer, longer batches
 	if tier == "thorough" {
 		sc, race, mq, mqr = 20000, 3000, 6000, 400
 		rb, mb = 16, 16
